@@ -1,0 +1,38 @@
+//go:build verif
+
+package util
+
+// Contracts checked by /verif (govc). Comment-only file: it adds no code.
+
+// ---- C11: dependency enablement (dependencies.go)
+
+//@ ghost func boolTag(vt Values, k string) bool = has(vt, k) && typeis(vt[k], bool)
+//@ ghost func anyTagTrue(r *chart.Dependency, vt Values) bool = exists j int :: 0 <= j && j < len(r.Tags) && boolTag(vt, r.Tags[j]) && vt[r.Tags[j]].(bool)
+//@ ghost func anyTagFalse(r *chart.Dependency, vt Values) bool = exists j int :: 0 <= j && j < len(r.Tags) && boolTag(vt, r.Tags[j]) && !vt[r.Tags[j]].(bool)
+//@ ghost func depsNonNil(reqs []*chart.Dependency) bool = forall j int :: 0 <= j && j < len(reqs) ==> reqs[j] != nil
+
+//@ func processDependencyTags
+//@   props C11
+//@   requires depsNonNil(reqs)
+//@   ensures [no-tags-table] !hasTable(cvals, "tags") ==> forall j int :: 0 <= j && j < len(reqs) ==> reqs[j].Enabled == old(reqs[j].Enabled)
+//@   ensures [truth-table] hasTable(cvals, "tags") ==> forall j int :: 0 <= j && j < len(reqs) ==> reqs[j].Enabled == (anyTagTrue(reqs[j], tableOf(cvals, "tags")) || !anyTagFalse(reqs[j], tableOf(cvals, "tags")))
+//@   loop 1 invariant [done] forall j int :: 0 <= j && j < #iter ==> reqs[j].Enabled == (anyTagTrue(reqs[j], vt) || !anyTagFalse(reqs[j], vt))
+//@   loop 1 invariant [vt] vt == tableOf(cvals, "tags") && hasTable(cvals, "tags")
+//@   loop 2 invariant [true] hasTrue <==> (exists j int :: 0 <= j && j < #iter && boolTag(vt, r.Tags[j]) && vt[r.Tags[j]].(bool))
+//@   loop 2 invariant [false] hasFalse <==> (exists j int :: 0 <= j && j < #iter && boolTag(vt, r.Tags[j]) && !vt[r.Tags[j]].(bool))
+
+//@ ghost func condPart(r *chart.Dependency, j int) string = splitAt(trimspace(r.Condition), ",", j)
+//@ ghost func condParts(r *chart.Dependency) int = splitLen(trimspace(r.Condition), ",")
+//@ ghost func decides(r *chart.Dependency, cvals Values, cpath string, j int) bool = len(condPart(r, j)) > 0 && hasPath(cvals, cpath + condPart(r, j)) && typeis(pathVal(cvals, cpath + condPart(r, j)), bool)
+//@ ghost func condValue(r *chart.Dependency, cvals Values, cpath string, j int) bool = pathVal(cvals, cpath + condPart(r, j)).(bool)
+
+//@ func processDependencyConditions
+//@   props C11
+//@   requires depsNonNil(reqs)
+//@   ensures [first-bool-decides] forall i, j int :: 0 <= i && i < len(reqs) && 0 <= j && j < condParts(reqs[i]) && decides(reqs[i], cvals, cpath, j) && (forall k int :: 0 <= k && k < j ==> !decides(reqs[i], cvals, cpath, k)) ==> reqs[i].Enabled == condValue(reqs[i], cvals, cpath, j)
+//@   ensures [none-unchanged] forall i int :: 0 <= i && i < len(reqs) && (forall k int :: 0 <= k && k < condParts(reqs[i]) ==> !decides(reqs[i], cvals, cpath, k)) && (forall i2 int :: 0 <= i2 && i2 < len(reqs) && i2 != i ==> reqs[i2] != reqs[i]) ==> reqs[i].Enabled == old(reqs[i].Enabled)
+//@   loop 1 invariant [done] forall i, j int :: 0 <= i && i < #iter && 0 <= j && j < condParts(reqs[i]) && decides(reqs[i], cvals, cpath, j) && (forall k int :: 0 <= k && k < j ==> !decides(reqs[i], cvals, cpath, k)) ==> reqs[i].Enabled == condValue(reqs[i], cvals, cpath, j)
+//@   loop 1 invariant [untouched] forall d *chart.Dependency :: (forall i int :: 0 <= i && i < #iter ==> reqs[i] != d) ==> d.Enabled == old(d.Enabled)
+//@   loop 1 invariant [undecided-unchanged] forall i int :: 0 <= i && i < #iter && (forall k int :: 0 <= k && k < condParts(reqs[i]) ==> !decides(reqs[i], cvals, cpath, k)) && (forall i2 int :: 0 <= i2 && i2 < len(reqs) && i2 != i ==> reqs[i2] != reqs[i]) ==> reqs[i].Enabled == old(reqs[i].Enabled)
+//@   loop 2 invariant [none-so-far] forall k int :: 0 <= k && k < #iter ==> !decides(r, cvals, cpath, k)
+//@   loop 2 invariant [parts] len(#range) == condParts(r) && (forall k int :: 0 <= k && k < len(#range) ==> #range[k] == condPart(r, k))
